@@ -111,6 +111,11 @@ func (c *trCtx) assignedIn2(through bool, nodes ...ast.Node) []types.Object {
 				if sel, ok := x.Fun.(*ast.SelectorExpr); ok && sel.Sel.Name == "GetDefault" && len(x.Args) == 3 {
 					mark(x.Args[0]) // dict.GetDefault stores a missing entry
 				}
+				if sel, ok := x.Fun.(*ast.SelectorExpr); ok && c.logVars != nil {
+					if id, ok := sel.X.(*ast.Ident); ok && c.logVars[c.info().Uses[id]] != nil {
+						assigned[c.info().Uses[id]] = true // a call on a write-only object appends to its log
+					}
+				}
 				if fo := c.calledFunc(x); fo != nil {
 					if p, ok := trPrims[fo.FullName()]; ok && p.mutRecv {
 						if sel, ok := trUnparen(x.Fun).(*ast.SelectorExpr); ok {
@@ -273,7 +278,7 @@ func (c *trCtx) tupleOf(vars []types.Object) (term string, typ string) {
 	var ns, ts []string
 	for _, v := range vars {
 		ns = append(ns, c.names[v])
-		ts = append(ts, c.leanType(v.Type(), v.Pos()))
+		ts = append(ts, c.varType(v, v.Pos()))
 	}
 	if len(vars) == 1 {
 		return ns[0], ts[0]
@@ -290,7 +295,7 @@ func (c *trCtx) unpack(st string, vars []types.Object, body trLines) trLines {
 		if c.names[vars[0]] == st {
 			return body
 		}
-		return trLet(c.names[vars[0]], c.leanType(vars[0].Type(), vars[0].Pos()), trOne(st), body)
+		return trLet(c.names[vars[0]], c.varType(vars[0], vars[0].Pos()), trOne(st), body)
 	}
 	out := body
 	for i := len(vars) - 1; i >= 0; i-- {
@@ -298,7 +303,7 @@ func (c *trCtx) unpack(st string, vars []types.Object, body trLines) trLines {
 		if i < len(vars)-1 {
 			proj += ".1"
 		}
-		out = trLet(c.names[vars[i]], c.leanType(vars[i].Type(), vars[i].Pos()), trOne(proj), out)
+		out = trLet(c.names[vars[i]], c.varType(vars[i], vars[i].Pos()), trOne(proj), out)
 	}
 	return out
 }
@@ -486,6 +491,9 @@ func (c *trCtx) exprStmt(x *ast.ExprStmt, k trK) trLines {
 	}
 	if tf, recv := c.calleeOf(call); tf != nil && len(tf.mut) > 0 {
 		return c.mutCall(call, tf, recv, nil, false, k)
+	}
+	if r, ok := c.logCall(call, k); ok {
+		return r
 	}
 	// a prelude method that writes to its receiver (strings.Builder): the receiver is rebound, the results are dropped
 	if fo := c.calledFunc(call); fo != nil {
